@@ -56,7 +56,7 @@ Section StepFrame.
       destruct (name_reserved (f_resv fr) nm (Some (e_params ev))); [discriminate|].
       destruct (has_var (s_vars s) (e_params ev) p nm).
       + destruct (get_var (s_vars s) (e_params ev) p nm) as [[v|vs]|]; try discriminate.
-        destruct (Nat.eqb (length v) n); [|discriminate]. inv H. apply frame_refl.
+        destruct (Nat.eqb (length v) (psize n input)); [|discriminate]. inv H. apply frame_refl.
       + destruct (in_filter (e_mutable ev) (e_params ev)) eqn:Em; simpl in H; [|destruct (col_empty (s_vars s) (e_params ev)); discriminate].
         destruct (make_rng ev p (e_params ev) s) as [s1|] eqn:Er; [|discriminate]. inv H.
         eapply frame_trans; [apply frame_same_vars; eapply make_rng_vars; eauto|]. now apply frame_put.
@@ -145,7 +145,7 @@ Theorem immutable_sow_is_noop ev call p input fr s col nm e v :
 Proof. intros He Hm. unfold step, mut. now rewrite He, Hm. Qed.
 Theorem wrong_shape_param_raises ev call p input fr s x nm n c v :
   name_reserved (f_resv fr) nm (Some (e_params ev)) = false -> has_var (s_vars s) (e_params ev) p nm = true ->
-  get_var (s_vars s) (e_params ev) p nm = Some (SVec v) -> length v <> n ->
+  get_var (s_vars s) (e_params ev) p nm = Some (SVec v) -> length v <> psize n input ->
   step ev call p input fr s (SParam x nm n c) = Err EParamShape.
 Proof. intros Hr Hh Hg Hl. unfold step. rewrite Hr, Hh, Hg. apply Nat.eqb_neq in Hl. now rewrite Hl. Qed.
 
@@ -240,7 +240,7 @@ Section StepKeys.
     - destruct (name_reserved (f_resv fr) nm (Some (e_params ev))); [discriminate|].
       destruct (has_var (s_vars s) (e_params ev) p nm).
       + destruct (get_var (s_vars s) (e_params ev) p nm) as [[v|vs]|]; try discriminate.
-        destruct (Nat.eqb (length v) n); [|discriminate]. inv H. exact I.
+        destruct (Nat.eqb (length v) (psize n input)); [|discriminate]. inv H. exact I.
       + destruct (negb (mut ev (e_params ev))); [destruct (col_empty (s_vars s) (e_params ev)); discriminate|].
         destruct (make_rng ev p (e_params ev) s) as [s1|] eqn:Er; [|discriminate]. inv H.
         apply keys_inv_param. eapply make_rng_inv; eauto.
